@@ -178,3 +178,46 @@ func (o *Once) Do(f func()) {
 		f()
 	}
 }
+
+// Pool stands in for sync.Pool: Get and Put are scheduling points; an object handed back is handed out again
+// (last in, first out - what the per-P private slot of the real pool does for one goroutine after another),
+// and a Put happens before the Get that returns the same object.
+type Pool struct {
+	New   func() interface{}
+	o     vrt.Obj
+	items []interface{}
+}
+
+func (p *Pool) Get() interface{} {
+	if !vrt.InTeardown() {
+		vrt.Point("Pool.Get", nil)
+		p.o.Touch(1)
+		p.o.Acquire()
+	}
+	if n := len(p.items); n > 0 {
+		x := p.items[n-1]
+		p.items = p.items[:n-1]
+		return x
+	}
+	if p.New != nil {
+		return p.New()
+	}
+	return nil
+}
+
+func (p *Pool) Put(x interface{}) {
+	if x == nil {
+		return
+	}
+	if !vrt.InTeardown() {
+		vrt.Point("Pool.Put", nil)
+		p.o.Touch(2)
+		p.o.Release()
+	}
+	p.items = append(p.items, x)
+	if !vrt.InTeardown() {
+		// whoever still uses x after handing it back races with the next taker: give the explorer the chance to
+		// run that taker right here (element accesses of a pooled slice are not shadowed by the race oracle)
+		vrt.Point("Pool.Put.done", nil)
+	}
+}
